@@ -26,6 +26,18 @@ U8 == -2
 STRG == -3
 UNIT == -4
 
+\* The validation family: a numeric validation (U8) and each length validation (String, Array, Map) as ROOT type
+\* (so that the payloads at and next to the bounds are one- or few-node values), with each bound independently
+\* absent / present: (none, none), (lower only), (upper only), (both).  Their validation edits below replace
+\* BOTH bounds by every combination of {none, 0, 1, 2, 3} - the full product of bound presence on the base side
+\* and on the compared side, never sampled.
+BoundCombos == << <<-1, -1>>, <<1, -1>>, <<-1, 2>>, <<1, 2>> >>
+BoundBases == [i \in 1..16 |->
+  LET c == BoundCombos[((i - 1) % 4) + 1] k == ((i - 1) \div 4) + 1 IN
+  CASE k = 1 -> << U8r(c[1], c[2]) >>
+    [] k = 2 -> << Str(c[1], c[2]) >>
+    [] k = 3 -> << Arr(BOOL, c[1], c[2]) >>
+    [] k = 4 -> << Mp(U8, BOOL, c[1], c[2]) >>]
 Bases == <<
   << Tup(<<U8, BOOL>>, "Pair", <<"a", "b">>) >>,
   << Tup(<<2, ANY>>, "", <<>>), U8r(1, 2) >>,
@@ -43,6 +55,7 @@ Bases == <<
   << Arr(2, 1, 1), Tup(<<U8, STRG>>, "", <<>>) >>,
   << Mp(2, 3, -1, 1), U8r(2, 3), Enm(<<Var(1, <<>>, "One")>>, "K") >>,
   << Tup(<<UNIT, 2>>, "", <<>>), Arr(U8, 0, 3) >> >>
+  \o BoundBases
 
 \* ---- edits of a schema (a sequence of definitions; the root is always type 1)
 Idx(S) == 1..Len(S)
@@ -56,6 +69,8 @@ Bounds == {NoBound, Bound(0), Bound(1), Bound(2), Bound(3)}
 ValEdits(S) ==
   UNION {{[S EXCEPT ![i].lo = b] : b \in Bounds} \cup {[S EXCEPT ![i].hi = b] : b \in Bounds}
          \cup {[S EXCEPT ![i].lo = NoBound, ![i].hi = NoBound]}
+         \* a validated root type: both bounds at once, every combination
+         \cup (IF i = 1 THEN {[S EXCEPT ![i].lo = b1, ![i].hi = b2] : b1 \in Bounds, b2 \in Bounds} ELSE {})
          : i \in {j \in Idx(S) : S[j].k \in {"U8", "String", "Array", "Map"}}}
 DropAt(s, j) == SubSeq(s, 1, j - 1) \o SubSeq(s, j + 1, Len(s))
 VariantEdits(S) ==
